@@ -63,6 +63,21 @@ def eval_bytes(exe, data, base_plain, case, stats, tag, file_operand=False, tags
                     bad = "input file changed or removed"
                 elif sorted(os.listdir(td)) != ["x.bz2"]:
                     bad = "unexpected files: %r" % os.listdir(td)
+    elif case.get("slow_close"):
+        # the writer of the input pipe closes it late (after the workers have gone idle); with 64-byte input blocks a
+        # truncation at 4 + 64k bytes makes the final read() return nothing
+        labels.append("slow-close-pipe")
+        def slow():
+            return core.run_fed([exe, "-d", "-n", str(case.get("n") or 2)], data, [(max(1, len(data)), 150)],
+                                env={"LBZIP2_VERIF_IN_GRANUL": "64"}, timeout=30)
+        r = slow()
+        bad = judge(r)
+        if bad == "timeout":
+            if all(slow().timeout for _ in range(2)):
+                bad = "hang: no exit within 30 s in 3 runs (input pipe closed 150 ms after the last byte)"
+            else:
+                stats.inconclusive += 1
+                return None
     else:
         r = _dec.run_lbzip2(exe, data, case)
         bad = judge(r)
@@ -78,7 +93,7 @@ def eval_bytes(exe, data, base_plain, case, stats, tag, file_operand=False, tags
                "stderr": r.err[:80].decode(errors="replace")} if hdr_ok else None)
     if bad:
         return {"data_hex": data.hex(), "n": case.get("n"), "sched": case.get("sched"), "ing": case.get("ing"),
-                "file_operand": file_operand, "what": bad, "reason": info["reason"]}
+                "file_operand": file_operand, "what": bad, "reason": info["reason"], "slow_close": case.get("slow_close", False)}
     return None
 
 
@@ -91,7 +106,9 @@ def make_enum_eval(exe, files):
         else:
             data = corpus.flip_bit(f["data"], a)
         case = {"n": n, "sched": None, "ing": None}
-        return eval_bytes(exe, data, f["plain"], case, stats, kind, file_operand=(a % 11 == 0))
+        if kind == "trunc" and a > 4 and (a - 4) % 64 == 0:
+            case["slow_close"] = True
+        return eval_bytes(exe, data, f["plain"], case, stats, kind, file_operand=(a % 11 == 0) and not case.get("slow_close"))
     return ev
 
 
@@ -154,7 +171,7 @@ def run(tier, seed):
     s2, f2 = core.pmap_cases(fx, fixed_inputs())
     stats.merge(s2)
     files = corpus.build(exe, seed, 8 if tier == "quick" else 40)
-    n = 1500 if tier == "quick" else 40000
+    n = 1500 if tier == "quick" else 20000
     s3, f3 = core.hyp_search(lambda: _dec.case_strategy(len(files)), make_hyp_eval(exe, files), n, seed)
     stats.merge(s3)
     # generator route: every entry of the bzgen defect catalogue (incl. defects in later streams whose level differs
